@@ -274,6 +274,28 @@ macro_rules! define_lms_core { () => {
         }
     }
 
+    // Verification hooks (accessors to private state); compiled only
+    // with --cfg pornin_crrl_verif.
+    #[cfg(pornin_crrl_verif)]
+    impl PrivateKey {
+        pub fn verif_from_parts(I: [u8; 16], SEED: [u8; m], current_leaf: u32,
+            T: [[u8; m]; 1usize << (h + 1)]) -> Self
+        {
+            Self { I, SEED, current_leaf, T }
+        }
+        pub fn verif_current_leaf(&self) -> u32 { self.current_leaf }
+        pub fn verif_I(&self) -> [u8; 16] { self.I }
+        pub fn verif_SEED(&self) -> [u8; m] { self.SEED }
+        pub fn verif_T(&self) -> &[[u8; m]; 1usize << (h + 1)] { &self.T }
+        pub const VERIF_H: usize = h;
+        pub const VERIF_SIGLEN: usize = lms_siglen;
+        pub const VERIF_OTS_SIGLEN: usize = ots_siglen;
+    }
+    #[cfg(pornin_crrl_verif)]
+    impl PublicKey {
+        pub fn verif_from_parts(I: [u8; 16], T1: [u8; m]) -> Self { Self { I, T1 } }
+    }
+
 } } // end of macro define_lms_core
 
 // ========================================================================
